@@ -7,7 +7,10 @@ package main
 
 import (
 	"go/types"
+	"sort"
 	"strings"
+
+	"golang.org/x/tools/go/ssa"
 )
 
 type typeUniverse struct {
@@ -106,14 +109,54 @@ func (e *Engine) blockTypeFact(t types.Type, blk, off *Term) *Term {
 	switch u := t.Underlying().(type) {
 	case *types.Pointer:
 		n, ok := isRepoNamed(u.Elem())
+		if ok {
+			if _, isStruct := n.Underlying().(*types.Struct); !isStruct {
+				ok = false
+			}
+		}
 		if !ok {
-			return nil
+			// pointers to other types (e.g. *uint64): exclude the known allocation types that cannot hold one
+			el := u.Elem()
+			switch el.Underlying().(type) {
+			case *types.Interface, *types.TypeParam:
+				return nil
+			}
+			var cs []*Term
+			var ids []int
+			for id := range e.tidType {
+				ids = append(ids, id)
+			}
+			sort.Ints(ids)
+			for _, id := range ids {
+				if !e.canHoldType(e.tidType[id], el, 0) {
+					cs = append(cs, Neq(e.btype(blk), IntLit(int64(id))))
+				}
+			}
+			if len(cs) == 0 {
+				return nil
+			}
+			return Or(Eq(blk, IntLit(0)), And(cs...))
 		}
 		if _, isStruct := n.Underlying().(*types.Struct); !isStruct {
 			return nil
 		}
 		if tu.embedded[types.TypeString(n, nil)] {
-			return nil
+			// the type occurs inside other allocations: exclude the known allocation types that cannot hold it
+			var cs []*Term
+			var ids []int
+			for id := range e.tidType {
+				ids = append(ids, id)
+			}
+			sort.Ints(ids)
+			for _, id := range ids {
+				if !e.canHold(e.tidType[id], n, 0) {
+					cs = append(cs, Neq(e.btype(blk), IntLit(int64(id))))
+				}
+			}
+			if len(cs) == 0 {
+				return nil
+			}
+			return Or(Eq(blk, IntLit(0)), And(cs...))
 		}
 		own := And(Eq(e.btype(blk), IntLit(int64(e.typeID(n)))), Eq(off, IntLit(0)))
 		arr := Eq(e.btype(blk), IntLit(int64(e.typeID(types.NewSlice(n)))))
@@ -129,4 +172,98 @@ func (e *Engine) blockTypeFact(t types.Type, blk, off *Term) *Term {
 		return Or(Eq(blk, IntLit(0)), Eq(e.btype(blk), IntLit(int64(e.typeID(types.NewSlice(el))))))
 	}
 	return nil
+}
+
+func (e *Engine) canHold(t types.Type, a *types.Named, depth int) bool {
+	return e.canHoldType(t, a, depth)
+}
+
+// canHoldType: can an allocation of type t contain a value of type a (so that a *a may point into it)?
+func (e *Engine) canHoldType(t types.Type, a types.Type, depth int) bool {
+	if depth > 6 {
+		return true
+	}
+	if types.Identical(t, a) {
+		return true
+	}
+	switch u := t.Underlying().(type) {
+	case *types.Struct:
+		for i := 0; i < u.NumFields(); i++ {
+			if e.canHoldType(u.Field(i).Type(), a, depth+1) {
+				return true
+			}
+		}
+		return false
+	case *types.Array:
+		return e.canHoldType(u.Elem(), a, depth+1)
+	case *types.Slice:
+		// allocation type []E: the backing array holds E values
+		if _, isNamed := t.(*types.Named); isNamed {
+			return false // a named slice type as allocation is a slice header, not the array
+		}
+		return e.canHoldType(u.Elem(), a, depth+1)
+	case *types.TypeParam:
+		return true
+	case *types.Interface:
+		return false
+	}
+	return false
+}
+
+// registerAllocTypes gives an allocation-type id to every struct and slice type that occurs in fn
+// (and, two levels deep, in their fields), so that the exclusion facts of blockTypeFact do not
+// depend on the order in which values happen to be met during execution.
+func (e *Engine) registerAllocTypes(fn *ssa.Function) {
+	seen := map[types.Type]bool{}
+	var visit func(t types.Type, depth int)
+	visit = func(t types.Type, depth int) {
+		if t == nil || seen[t] || depth > 3 {
+			return
+		}
+		seen[t] = true
+		switch u := t.Underlying().(type) {
+		case *types.Pointer:
+			visit(u.Elem(), depth)
+		case *types.Slice:
+			if _, isTP := u.Elem().(*types.TypeParam); !isTP {
+				e.typeID(types.NewSlice(u.Elem()))
+			}
+			visit(u.Elem(), depth+1)
+		case *types.Array:
+			e.typeID(types.NewSlice(u.Elem()))
+			visit(u.Elem(), depth+1)
+		case *types.Struct:
+			if n, ok := t.(*types.Named); ok {
+				if n.TypeArgs() == nil || n.TypeArgs().Len() == 0 {
+					e.typeID(n)
+				}
+			}
+			for i := 0; i < u.NumFields(); i++ {
+				visit(u.Field(i).Type(), depth+1)
+			}
+		case *types.Map:
+			visit(u.Elem(), depth+1)
+		case *types.Tuple:
+			for i := 0; i < u.Len(); i++ {
+				visit(u.At(i).Type(), depth)
+			}
+		}
+	}
+	var walk func(f *ssa.Function)
+	walk = func(f *ssa.Function) {
+		for _, p := range f.Params {
+			visit(p.Type(), 0)
+		}
+		for _, fv := range f.FreeVars {
+			visit(fv.Type(), 0)
+		}
+		for _, b := range f.Blocks {
+			for _, ins := range b.Instrs {
+				if val, ok := ins.(ssa.Value); ok {
+					visit(val.Type(), 0)
+				}
+			}
+		}
+	}
+	walk(fn)
 }
